@@ -26,7 +26,9 @@
  * Oracle (only what the statement says)
  *   C30.success_iff_zero.<order>   execute() returns normally <=> the child exited with 0
  *   C30.signal_reported.<order>    child killed by a signal => the error says so ("signal")
- *   C30.liveness.hang / C30.crash  the case did not finish in 30 s / the process died
+ *   C30.liveness.deadlock          every thread of the process sleeps for ever in a futex wait
+ *                                  (state based; the 120 s time budget alone is inconclusive)
+ *   C30.crash                      the process running the managers died
  * Observations that are counted but are not verdicts: wrong exit value in the
  * message, exit reported as signal death.
  *
@@ -368,15 +370,23 @@ namespace {
   std::map<std::string, int> failuresSeen, shrinkExecutions;
 
   void executeOnce(verif::Case& c, const Script& s) {
-    const auto o = verif::runForked([&s](const int fd) { runCase(s, fd); }, 30.);
+    // 120 s is a time budget (inconclusive when hit); a dead-lock is recognised
+    // from the state of the threads (forkcase.hxx), not from the clock
+    const auto o = verif::runForked([&s](const int fd) { runCase(s, fd); }, 120., true);
     const auto tail = [&o] {
       std::string t = o.text.size() > 600 ? o.text.substr(o.text.size() - 600) : o.text;
       for (auto& ch : t)
         if (ch == '\n') ch = '|';
       return t;
     };
+    if (std::getenv("VERIF_DUMP_CHILD") != nullptr) std::cerr << o.text << std::endl;
     if (o.how == verif::ForkOutcome::FORK_FAILED) c.discard();
-    c.check(o.how != verif::ForkOutcome::TIMEOUT, "C30.liveness.hang", "case did not finish within 30 s; output: " + tail());
+    if (o.how == verif::ForkOutcome::TIMEOUT) {
+      c.tag("time_budget_hit_inconclusive");
+      c.discard();
+    }
+    c.check(o.how != verif::ForkOutcome::DEADLOCK, "C30.liveness.deadlock",
+            "every thread of the process sleeps for ever in a futex wait; output: " + tail());
     c.check(o.how != verif::ForkOutcome::SIGNALED, "C30.crash",
             "process killed by signal " + std::to_string(o.code) + "; output: " + tail());
     const auto pf = o.text.find("\nFAIL ");
